@@ -24,6 +24,15 @@ def run(ctx):
     rejects, tlines = srvfam.run_trace_validation(ctx, tpath, ct)
     verdicts, elines = srvfam.run_monitor(ctx, epath)
     traces = rep.get("cases_total", 0)
+    # random walks of the 3-request model (a tag reused after the Rversion that aborted its request) replayed on the code
+    sims, rs = srvfam.behaviours_sim(ctx, c, "version3", num=300 if q else 3000, depth=90)
+    srep, stp, sep, sbp = srvfam.replay(ctx, sims, c, "version3sim", id_base=50000)
+    rj3, tl3 = srvfam.run_trace_validation(ctx, stp, c, name="Srv9PTrace:version3sim")
+    vd3, el3 = srvfam.run_monitor(ctx, sep, name="Mon9P:version3sim")
+    rejects += rj3
+    verdicts += vd3
+    tlines += tl3
+    traces += srep.get("cases_total", 0)
     n = 8
     cr = srvfam.consts(ctx, NReq=n, Tags=set(range(1, n + 2)), Fids={1, 2, 3}, Kinds={"Attach", "Stat", "Clunk", "Walk", "Flush", "Version"},
                        Late=True, InitFids={1}, NoTag=n + 1)
@@ -36,11 +45,14 @@ def run(ctx):
     verdicts += vd
     traces += rrep.get("cases_total", 0)
     # judged here: crashes / stalls / replies nobody asked for / a second reply.  Requests outstanding at a Tversion
-    # legitimately lose their replies, so "unanswered" verdicts are not X02's business.
-    keep = [v for v in verdicts if v[2] in ("server-crash", "stalled", "second-reply", "wrong-reply-type", "foreign-payload")]
+    # legitimately lose their replies.
+    # (requests sent after the Rversion must be answered like any other: the monitor counts those outstanding at the
+    # Tversion as aborted)
+    keep = [v for v in verdicts if v[2] in ("server-crash", "stalled", "second-reply", "wrong-reply-type", "foreign-payload", "unanswered",
+                                            "flush-unanswered", "late-reply-under-reused-tag")]
     for (case, prop, kind, detail) in keep:
         ctx.violation("x02:%s:%s" % (kind, srvfam.classify_detail(kind, detail)), "%s %s (case %d)" % (kind, detail, case),
-                      {"behaviour": srvfam.case_replay(bpath if case < 100000 else bp, case)})
+                      {"behaviour": srvfam.case_replay(bpath if case < 50000 else (sbp if case < 100000 else bp), case)})
     cov_d = {"states": states, "transitions": trans, "traces_validated_against_impl": traces,
              "samples": (rep.get("samples") or [])[:1] + (rrep.get("samples") or [])[:1],
              "evaluations": traces, "distinct_nontrivial": len(paths) + rc["cases"],
